@@ -317,7 +317,24 @@ func (c *Ctx) ruleSendSideCopy() {
 		for _, b := range fn.Blocks {
 			for _, in := range b.Instrs {
 				if st, ok := in.(*ssa.Store); ok && strings.HasSuffix(fieldPath(st.Addr), "PathAttributes") {
-					if _, isMake := st.Val.(*ssa.MakeSlice); isMake && fresh == nil && b == fn.Blocks[0] {
+					// a fresh list: make(...), or append(make(..., 0, n), old...), or slices.Clone(old)
+					isFresh := false
+					switch v := st.Val.(type) {
+					case *ssa.MakeSlice:
+						isFresh = true
+					case *ssa.Call:
+						if bi, ok := v.Call.Value.(*ssa.Builtin); ok && bi.Name() == "append" && len(v.Call.Args) == 2 {
+							switch a0 := v.Call.Args[0].(type) {
+							case *ssa.MakeSlice:
+								isFresh = true
+							case *ssa.Const:
+								isFresh = a0.IsNil()
+							}
+						} else if cal := v.Call.StaticCallee(); cal != nil && strings.HasPrefix(cal.String(), "slices.Clone") {
+							isFresh = true
+						}
+					}
+					if isFresh && fresh == nil && b == fn.Blocks[0] {
 						fresh = st
 					}
 				}
